@@ -193,6 +193,9 @@ func runC12(p *Prog, r *Report) {
 	c12R6(p, r)
 	pkgLevelStateRule(p, r, "C12.R7")
 	parseEnumCanonicalRule(p, r, "C12.R10")
+	valueCountRule(p, r, "C12.R11")
+	sharedMapAliasRule(p, r, "C12.R12")
+	armEffectRule(p, r, "C12.R13", "config.parseConverterLine", "output:package", "OutputPackagePath", "OutputPackageName")
 	armStoresRule(p, r, "C12.R8", "config.parseMethodLine", allArmKeys("config.parseMethodLine")...)
 	armStoresRule(p, r, "C12.R9", "config.parseConverterLine", allArmKeys("config.parseConverterLine")...)
 }
